@@ -227,6 +227,19 @@ func c18GenTree(r *core.Rand) *tree.Tree {
 		put("q1", tree.File, "")
 		put("lq", tree.Symlink, "q[1]")
 	}
+	if r.P(1, 25) {
+		// the library layout: many links in one directory, each the head of
+		// a chain of its own (w/l07 -> ../ws/m07 -> t07). One wildcard
+		// request matches them all; every match is a lookup of its own with
+		// its own budget of 40 links, together they follow more than 40
+		put("w", tree.Dir, "")
+		put("ws", tree.Dir, "")
+		for i, n := 0, r.Range(21, 26); i < n; i++ {
+			put(fmt.Sprintf("w/l%02d", i), tree.Symlink, fmt.Sprintf("../ws/m%02d", i))
+			put(fmt.Sprintf("ws/m%02d", i), tree.Symlink, fmt.Sprintf("t%02d", i))
+			put(fmt.Sprintf("ws/t%02d", i), tree.File, "")
+		}
+	}
 	if r.P(1, 6) { // a link to a directory with two files: the shared-prefix shape
 		put("t", tree.Dir, "")
 		put("t/x", tree.File, "")
@@ -270,6 +283,9 @@ func c18GenRequests(r *core.Rand, t *tree.Tree) []string {
 	// 37..43 links: the limit itself is part of what is explored
 	if e := t.Get("lq"); e != nil && e.Target == "q[1]" && r.P(3, 4) {
 		out = append(out, "lq")
+	}
+	if e := t.Get("w/l20"); e != nil && e.Type == tree.Symlink && r.P(3, 4) {
+		out = append(out, core.Pick(r, []string{"w/*", "w/l*", "w/l??", "*/l*"}))
 	}
 	for _, e := range t.Entries {
 		if e.Type == tree.Symlink && tree.Base(e.Path) == "ch37" && r.P(3, 4) {
